@@ -207,6 +207,9 @@ func (r *zzMemReader) ReadAt(p []byte, off int64) (int, error) {
 		}
 		return n, io.EOF
 	}
+	if off+int64(n) == int64(len(r.data)) && zzModel[r.name+"_eofat"] != 0 {
+		return n, io.EOF // legal for an io.ReaderAt: a full read that ends exactly at the end of the input
+	}
 	return n, nil
 }
 
